@@ -1,14 +1,21 @@
 import Driver.C01
+import Driver.TabD
 open Drv Lean
 
 def genFor (prop tier : String) (seed : Nat) : Except String (Array Case) :=
   match prop with
   | "C01" => pure (genC01Cases tier seed)
+  | "C02" => pure (genC02Cases tier seed)
+  | "C03" => pure (genC03Cases tier seed)
+  | "C04" => pure (genTabCases tier seed "c04")
   | _ => throw s!"no generator for {prop}"
 
 def judgeFor (prop : String) : Except String (Case → ObsLine → Verdict) :=
   match prop with
   | "C01" => pure judgeParse
+  | "C02" => pure judgeParse
+  | "C03" => pure judgeParse
+  | "C04" => pure (judgeTab false)
   | _ => throw s!"no judge for {prop}"
 
 def main (args : List String) : IO UInt32 := do
